@@ -224,8 +224,7 @@ func (hr *histRunner) history(hi int) *histObs {
 		ho.Units = append(ho.Units, uo)
 
 		// the unit for the Go toolchain
-		pref := fmt.Sprintf("H%dU%d_qf$1", hi, u)
-		hr.batch.WriteString(qfRe.ReplaceAllString(body, pref))
+		hr.batch.WriteString(renameSyms(body, fmt.Sprintf("H%dU%d_", hi, u)))
 
 		// ---- calls: every function compiled so far, the new unit's with more argument tuples
 		if refresh {
@@ -246,7 +245,7 @@ func (hr *histRunner) history(hi int) *histObs {
 				if *hr.timeouts >= maxHistTimeouts {
 					break
 				}
-				at := mkArgs(r, s.f.params)
+				at := argsFor(r, s.f, r.Intn(64))
 				tr.entries = nil
 				vl0 := []int{0, 3, 1, 2, 7}[(len(ho.Calls)+t)%5]
 				res := callWithTimeout(evalEnv, s.fn, s.f.res, at, vl0, 300*time.Millisecond)
